@@ -3,7 +3,7 @@
 //! Sub-checks
 //!  * `points`      curated special values (NaNs, infinities, signed zeros, cut-offs); also the
 //!                  replay entry point for failures found by the bulk loops.
-//!  * `grid`        (quick) every sign x exponent x 4096 evenly spaced mantissas (+ first/last
+//!  * `grid`        (quick) every sign x exponent x 16384 evenly spaced mantissas (+ first/last
 //!                  mantissa) and dense neighbourhoods of every cut-off, all functions, all ISAs.
 //!  * `all-f32`     (thorough) all 2^32 bit patterns, all functions, all ISAs.
 //!  * `random-vectors` proptest: random bit patterns / ranges in slices of length 1..=67
@@ -265,8 +265,8 @@ fn quick_points() -> Vec<u32> {
     for sign in 0..2u32 {
         for exp in 0..256u32 {
             let base = (sign << 31) | (exp << 23);
-            for k in 0..4096u32 {
-                v.push(base | (k << 11));
+            for k in 0..16384u32 {
+                v.push(base | (k << 9));
             }
             v.push(base | 1);
             v.push(base | 0x7f_ffff);
@@ -275,7 +275,7 @@ fn quick_points() -> Vec<u32> {
     }
     for c in centres() {
         let b = c.to_bits() as i64;
-        for d in -2048i64..=2048 {
+        for d in -8192i64..=8192 {
             let x = b + d;
             if (0..=u32::MAX as i64).contains(&x) {
                 v.push(x as u32);
@@ -684,8 +684,8 @@ fn main() {
     let mut ck = Check::new("C19");
     ck.rule(
         "Unary functions (Exp, Sigmoid, Tanh, Erf, Sin, Cos, Silu, Swish(1.7), Gelu, ApproxGelu, Elu(0.5)) are evaluated on \
-         EVERY ISA (generic, AVX2, AVX-512; explicit SimdOp::eval(isa)) at: quick = every sign x exponent x 4096 evenly spaced \
-         mantissas (+ first/last mantissas) + +-2048-ULP neighbourhoods of every cut-off constant in the source + +-16 ULPs around every \
+         EVERY ISA (generic, AVX2, AVX-512; explicit SimdOp::eval(isa)) at: quick = every sign x exponent x 16384 evenly spaced \
+         mantissas (+ first/last mantissas) + +-8192-ULP neighbourhoods of every cut-off constant in the source + +-16 ULPs around every \
          multiple of pi/2 below 48000 (sub-check grid, deduplicated point set), thorough = all 2^32 bit patterns (all-f32); plus \
          proptest vectors of length 1..=67 (random-vectors) and curated special values (points). One evaluation = one (function, ISA, \
          input) triple. Non-trivial = the reference result is finite and non-zero. Softmax/LogSoftmax/Normalize: proptest vectors of \
@@ -753,11 +753,11 @@ fn main() {
         }
     }
 
-    let n = ck.pick(60_000, 3_000_000);
+    let n = ck.pick(400_000, 6_000_000);
     ck.prop("random-vectors", n, rv_case, |c| rv_oracle(c, &isas));
-    let n = ck.pick(150_000, 6_000_000);
+    let n = ck.pick(800_000, 12_000_000);
     ck.prop("softmax", n, sm_case, |c| sm_oracle(c, &isas));
-    let n = ck.pick(100_000, 3_000_000);
+    let n = ck.pick(500_000, 6_000_000);
     ck.prop("normalize", n, nm_case, |c| nm_oracle(c, &isas));
     ck.finish();
 }
